@@ -163,6 +163,15 @@ PROPS = {
         "trusted_base": ["harness/src/s_keys.rs (generator, mutations, hand-made protobuf)", "tools/props.py cmp_keys, oracle_keys", "lean/Codec.lean, lean/Driver.lean runKeys", "hook H2 (00f04bf): re-export of the signature type under cfg(biscuit_verif)"],
         "assumptions": ["signature scheme: verify(pk, m, s) holds only for s = sign(sk, m) with pk = public(sk) (observed, not proved)"],
     },
+    "C18": {
+        "module": "BiscuitModel.Props.C18",
+        "streams": ["macros"],
+        "level_text": "Lean 4 theorems about the two ways parameters are bound, on the model of C20: set_state_eq_setLenient_state and setScope_state_eq_lenient_state (the strict and the lenient setters differ in their answer, never in the state), runtime_bind_eq_macro_bind (offering EVERY supplied binding to an item with the strict setter and dropping the answer - code_with_params, or set in a loop - leaves the item in the same state as offering it only the parameters it declares with the lenient setter - the code the macros emit), substTerm_congr / substOps_congr / substRule_congr (the substituted item depends on the bindings only through the value each name has), lookup_bindRuntime, lookup_perm and bind_order_irrelevant (when every name is bound once, any two orders of binding give the same substituted item: the hash-map and hash-set iteration orders of the two paths cannot make them differ). Tie: stream macros - a crate is generated, built offline against /repo and run on every check: one function per case builds an item twice, with fact! / rule! / check! / policy! / block! / block_merge! / biscuit! / biscuit_merge! / authorizer! / authorizer_merge! and by parsing the same source at run time and binding the same parameters (Fact/Rule/Check/Policy::try_from + set / set_scope, BlockBuilder / BiscuitBuilder / AuthorizerBuilder::code_with_params); sources are items generated over the whole grammar with parameters injected at every kind of position (terms, nested collections, map keys, expression values, closure bodies, rule scopes, the block's own scopes), printed by the library; values are given to the macro as Rust expressions of every accepted type (Term, i64, &str, String, bool, Vec<u8>, SystemTime, BTreeSet<Term>, PublicKey), explicitly or through variables in scope; compared: Display, the converted Datalog form with its symbol table, the token bytes under a fixed root key and a fixed generator, the authorizer's dump_code and snapshot bytes - between the two paths (oracle) and, for Display, with the model's substituted item.",
+        "level_note": "Partial: that the token stream emitted by quote! rebuilds exactly the parsed item, and the ToAnyParam conversions of Rust values, are code generation and trait dispatch, not modelled: they are decided by compiling and running the generated crate. The macros take every parameter at compile time, so subsets of bound parameters exist only on the runtime path (C20). A name is used either as a term or as a key parameter in this stream (set_macro_param dispatches on the value's type).",
+        "rule": "macros stream: corpus first, then seeded cases (140 in the quick tier, 700 in the thorough one) over the ten macro forms; non-trivial = at least one parameter or a merge form; distinct = distinct case JSON",
+        "trusted_base": ["harness/src/s_macros.rs (generator of the crate work/c18gen, which is rebuilt on every run)", "tools/props.py cmp_macros, oracle_macros", "lean/Codec.lean, lean/Driver.lean runMacros"],
+        "assumptions": [],
+    },
     "C20": {
         "module": "BiscuitModel.Props.C20",
         "streams": ["params"],
@@ -747,7 +756,44 @@ def match_source_nesting(k, d):
     return any(ch * 1000 in t for ch in "([!") or t.count("$x.any(") >= 50
 
 
-COMPARATORS = {"untrusted": cmp_untrusted, "keys": cmp_keys, "params": cmp_params, "print": cmp_print, "snapshot": cmp_snapshot, "symbols": cmp_symbols, "versions": cmp_versions, "chain": cmp_chain, "limits": cmp_limits, "expr": cmp_default, "engine": cmp_engine, "authz": cmp_authz, "atten": cmp_atten, "determ": cmp_determ}
+# ---------------------------------------------------------------- macros stream (C18)
+def cmp_macros(case, impl, model):
+    if "driver_error" in model:
+        return "driver error: %s" % model["driver_error"]
+    if "build_failed" in impl:
+        return "the generated crate does not build: %s" % impl["build_failed"][:300]
+    if "missing_output" in impl:
+        return impl["missing_output"]
+    m = impl["macro"]
+    if "panic" in m or "err" in m:
+        return "skip"       # judged by the oracle (both paths must then fail alike)
+    if model.get("dup_keys"):
+        return "skip"       # two entries of one map got the same key: BTreeMap keeps one of them
+    t = m.get("text")
+    if t != model["text"] and norm_sets(t) != norm_sets(model["text"]):
+        return "the macro-built %s prints differently from the model's substituted item: %r vs %r" % (case["kind"], t[:300], model["text"][:300])
+    return None
+
+
+def oracle_macros(case, impl):
+    """C18 on the implementation alone: the macro-built and the runtime-built builders are identical
+    (Display, converted form / token bytes under fixed keys / authorizer snapshot); when one path fails,
+    the other fails the same way"""
+    if "build_failed" in impl or "missing_output" in impl:
+        return None     # reported by the comparator
+    m, r = impl["macro"], impl["runtime"]
+    if m == r:
+        return None
+    for k in ("panic", "err"):
+        if (k in m) != (k in r):
+            return "one path fails and the other does not: macro %s, runtime %s" % (json.dumps(m)[:200], json.dumps(r)[:200])
+    for k in ("text", "converted", "bytes"):
+        if m.get(k) != r.get(k):
+            return "%s differs between the macro-built and the runtime-built %s: %s vs %s" % (k, case["kind"], json.dumps(m.get(k))[:240], json.dumps(r.get(k))[:240])
+    return "macro-built and runtime-built results differ: %s vs %s" % (json.dumps(m)[:200], json.dumps(r)[:200])
+
+
+COMPARATORS = {"macros": cmp_macros, "untrusted": cmp_untrusted, "keys": cmp_keys, "params": cmp_params, "print": cmp_print, "snapshot": cmp_snapshot, "symbols": cmp_symbols, "versions": cmp_versions, "chain": cmp_chain, "limits": cmp_limits, "expr": cmp_default, "engine": cmp_engine, "authz": cmp_authz, "atten": cmp_atten, "determ": cmp_determ}
 
 
 def nontrivial(stream, case, impl):
@@ -771,6 +817,8 @@ def nontrivial(stream, case, impl):
         return impl["ext"].get("r") in ("ok", "nomatch", "unauth") and impl["base"].get("r") in ("ok", "nomatch", "unauth")
     if stream == "engine":
         return impl.get("r") == "ok" and impl.get("iterations", 0) >= 1
+    if stream == "macros":
+        return len(case["binds"]) >= 1 or case["merge"]
     if stream == "untrusted":
         return case["kind"] != "entry" or impl.get("r") == "ok"
     if stream == "keys":
@@ -913,7 +961,7 @@ def oracle_limits(case, impl):
     return None
 
 
-ORACLES = {("C09", "untrusted"): oracle_untrusted, ("C17", "keys"): oracle_keys, ("C20", "params"): oracle_params, ("C14", "print"): oracle_print, ("C13", "snapshot"): oracle_snapshot, ("C12", "symbols"): oracle_symbols, ("C10", "limits"): oracle_limits, ("C06", "expr"): oracle_expr, ("C03", "atten"): oracle_atten}
+ORACLES = {("C18", "macros"): oracle_macros, ("C09", "untrusted"): oracle_untrusted, ("C17", "keys"): oracle_keys, ("C20", "params"): oracle_params, ("C14", "print"): oracle_print, ("C13", "snapshot"): oracle_snapshot, ("C12", "symbols"): oracle_symbols, ("C10", "limits"): oracle_limits, ("C06", "expr"): oracle_expr, ("C03", "atten"): oracle_atten}
 
 
 def signature(d):
